@@ -72,6 +72,38 @@ def check(repo: Repo, run: Run) -> None:
                    nontrivial=False, line=e.lineno)
             owner.setdefault(e.key, e)
 
+    # ---- R2 the family tables stay what their modules registered: nothing outside a family's module writes into its table
+    # (a merge that uses one family's table as the accumulator makes that family claim every other family's names)
+    interp = sym.Interp(repo)
+    fam_tables = {f"pykdebugparser.trace_handlers.{fam}.handlers" for fam in reg}
+    n_units = 0
+    for mod in repo.modules.values():
+        units = [(None, f) for f in mod.functions.values()]
+        for ci in mod.classes.values():
+            units.extend((ci, m) for m in ci.methods.values())
+        for ci, fn in units:
+            if not any(isinstance(x, (ast.Name, ast.Attribute)) and (getattr(x, "id", None) or getattr(x, "attr", "")).endswith("handlers")
+                       or isinstance(x, ast.Name) and x.id in mod.imports for x in ast.walk(fn)):
+                continue
+            n_units += 1
+            try:
+                rec = interp.run(mod, fn, self_cls=ci)
+            except Exception:
+                continue
+            for e_ in rec.effects:
+                pth = e_.path if e_.path is not None else e_.base
+                root = sym.root_of(pth) if pth is not None else None
+                if root is not None and root.op == "global" and root.a[0] in fam_tables and e_.kind in ("mut-call", "sub-store", "del-sub") \
+                        and not mod.name.startswith(root.a[0].rsplit(".", 1)[0]):
+                    qn = f"{ci.name}.{fn.name}" if ci else fn.name
+                    run.ob("R2", mod.name, qn, f"family table {root.a[0].split('.')[-2]}.handlers is not written", False,
+                           f"{qn} changes {root.a[0]} ({e_.kind} {e_.key if not isinstance(e_.key, sym.T) else sym.pretty(e_.key)[:30]}, "
+                           f"line {e_.lineno}): after it has run that family claims names of other families as well, and every parser "
+                           f"shares one table", line=e_.lineno,
+                           witness="build a TracesParser, then look at the family tables / replace a decoder through one parser")
+    run.ob("R2", "pykdebugparser", "<package>", "family tables are written only by their own modules (units examined)", True,
+           facts={"units": n_units}, nontrivial=False)
+
     # ---- R3 twins
     eff = registry.effective(reg)
     twins = [e for e in eff.values() if e.key.endswith("_nocancel")]
